@@ -308,8 +308,17 @@ pub fn gen_text(rng: &mut Rng, alpha: &[&str], table: &Table) -> String {
         }
         // a word: random letters, or a concatenation of table entries (when they are UTF-8), or a mix
         let mode = rng.below(10);
-        if mode < 6 || table.is_empty() {
+        if mode < 5 || table.is_empty() {
             s.push_str(&gen_word(rng, alpha, 9));
+        } else if mode < 7 {
+            // the word IS one table entry (a shortcut that emits the entry's id directly is wrong when the
+            // canonical merge order never reaches that entry)
+            let e = rng.pick(table);
+            match std::str::from_utf8(e) {
+                Ok(t) if !t.is_empty() && !t.chars().any(|c| c.is_whitespace()) => s.push_str(t),
+                Ok(t) if !t.trim_start().is_empty() && !t.trim_start().chars().any(|c| c.is_whitespace()) => s.push_str(t.trim_start()),
+                _ => s.push_str(&gen_word(rng, alpha, 3)),
+            }
         } else {
             for _ in 0..rng.range(1, 3) {
                 let e = rng.pick(table);
